@@ -244,6 +244,20 @@ pub fn gen(rng: &mut Rng, tier: Tier, out: &mut Vec<String>) {
                 // degenerate: two equal vertices
                 vs[1] = vs[0];
             }
+            if flavour == 5 {
+                // a RECEDING edge: one vertex close to the eye (w = 1) that is 0.2 %..2 % outside one side
+                // plane, the other two far away (w = 1e3..1e4) and inside: the crossing parameter of the two
+                // edges from the near vertex is ~1e-6, and an excess of 1 % of the near vertex's w is several
+                // pixels on screen although it is nothing against the far coordinates
+                let ax = rng.below(2) as usize;
+                let sgn = if rng.bool() { 1.0 } else { -1.0 };
+                vs[0] = [rng.f32_in(-0.5, 0.5), rng.f32_in(-0.5, 0.5), rng.f32_in(-0.5, 0.5), 1.0];
+                vs[0][ax] = sgn * (1.0 + rng.f32_in(0.002, 0.02));
+                for v in vs.iter_mut().skip(1) {
+                    let w = 10f32.powf(rng.f32_in(3.0, 4.0));
+                    *v = [rng.f32_in(-0.8, 0.8) * w, rng.f32_in(-0.8, 0.8) * w, rng.f32_in(-0.8, 0.8) * w, w];
+                }
+            }
             for v in vs {
                 for c in v {
                     line += " ";
